@@ -109,6 +109,8 @@ static UriBool URI_FUNC(LowercaseMalloc)(const URI_CHAR ** first,
 
 static void URI_FUNC(PreventLeakage)(URI_TYPE(Uri) * uri,
 		unsigned int revertMask, UriMemoryManager * memory);
+static UriBool URI_FUNC(FixPathAfterDotRemoval)(URI_TYPE(Uri) * uri,
+		UriBool relative, UriMemoryManager * memory);
 
 
 
@@ -181,6 +183,87 @@ static URI_INLINE void URI_FUNC(PreventLeakage)(URI_TYPE(Uri) * uri,
 		uri->fragment.first = NULL;
 		uri->fragment.afterLast = NULL;
 	}
+}
+
+
+
+static URI_INLINE UriBool URI_FUNC(SegmentContainsColon)(
+		const URI_TYPE(PathSegment) * segment) {
+	const URI_CHAR * ch = segment->text.first;
+	for (; ch < segment->text.afterLast; ch++) {
+		if (*ch == _UT(':')) {
+			return URI_TRUE;
+		}
+	}
+	return URI_FALSE;
+}
+
+
+
+/* Removing dot segments must not change how the path reads back:
+ * - a path of a URI without host must not start with "//"
+ *   (would be read as an authority),
+ * - the first segment of a relative-path reference must neither be empty
+ *   (the path would become absolute) nor contain a colon (it would be read
+ *   as a scheme).
+ * One "." segment in front protects against that; a leading "." segment
+ * that was kept earlier but is not needed any more is dropped.
+ * NOTE: All non-empty path segment texts are owned when this is called. */
+static URI_INLINE UriBool URI_FUNC(FixPathAfterDotRemoval)(URI_TYPE(Uri) * uri,
+		UriBool relative, UriMemoryManager * memory) {
+	URI_TYPE(PathSegment) * head = uri->pathHead;
+	URI_TYPE(PathSegment) * segment;
+	URI_CHAR * text;
+	UriBool guardNeeded;
+
+	if ((head == NULL) || URI_FUNC(IsHostSet)(uri)) {
+		return URI_TRUE;
+	}
+
+	if (relative && (head->next != NULL)
+			&& ((head->text.afterLast - head->text.first) == 1)
+			&& (head->text.first[0] == _UT('.'))) {
+		URI_TYPE(PathSegment) * const next = head->next;
+		if (((next->text.first == next->text.afterLast) && (next->next != NULL))
+				|| URI_FUNC(SegmentContainsColon)(next)) {
+			return URI_TRUE; /* Still essential */
+		}
+		memory->free(memory, (URI_CHAR *)head->text.first);
+		memory->free(memory, head);
+		uri->pathHead = next;
+		head = next;
+	}
+
+	if (head->text.first != head->text.afterLast) {
+		guardNeeded = (relative && URI_FUNC(SegmentContainsColon)(head))
+				? URI_TRUE : URI_FALSE;
+	} else if (uri->absolutePath || relative) {
+		guardNeeded = (head->next != NULL) ? URI_TRUE : URI_FALSE;
+	} else {
+		guardNeeded = ((head->next != NULL)
+				&& (head->next->text.first == head->next->text.afterLast)
+				&& (head->next->next != NULL)) ? URI_TRUE : URI_FALSE;
+	}
+	if (!guardNeeded) {
+		return URI_TRUE;
+	}
+
+	segment = memory->malloc(memory, 1 * sizeof(URI_TYPE(PathSegment)));
+	if (segment == NULL) {
+		return URI_FALSE; /* Raises malloc error */
+	}
+	text = memory->malloc(memory, 1 * sizeof(URI_CHAR));
+	if (text == NULL) {
+		memory->free(memory, segment);
+		return URI_FALSE; /* Raises malloc error */
+	}
+	text[0] = _UT('.');
+	segment->text.first = text;
+	segment->text.afterLast = text + 1;
+	segment->reserved = NULL;
+	segment->next = head;
+	uri->pathHead = segment;
+	return URI_TRUE;
 }
 
 
@@ -715,6 +798,10 @@ static URI_INLINE int URI_FUNC(NormalizeSyntaxEngine)(URI_TYPE(Uri) * uri,
 				(uri->owner == URI_TRUE)
 				|| ((doneMask & URI_NORMALIZE_PATH) != 0),
 				memory)) {
+			URI_FUNC(PreventLeakage)(uri, doneMask, memory);
+			return URI_ERROR_MALLOC;
+		}
+		if (!URI_FUNC(FixPathAfterDotRemoval)(uri, relative, memory)) {
 			URI_FUNC(PreventLeakage)(uri, doneMask, memory);
 			return URI_ERROR_MALLOC;
 		}
